@@ -511,7 +511,7 @@ def run(ctx):
     ctx.rule("R-16.5", "every random draw of velocity regeneration (and of the rest of the move/engine code) uses the job's stream, obtained at call time and never parked in instance state (shared with C07 R-7.4 / R-7.5)", floor=10)
     ctx.rule("R-16.8", "variance clause, symbolically: normal(0, sigma) with sigma^2*beta*mass == 1; beta*kB*T == 1 per engine; kB in the engine's energy unit; no rescaling between draw and writer except the engine's unit factor", floor=14)
     ctx.rule("R-16.7", "the frame index of the configuration that is dumped before velocity regeneration is tested with `is None`, never by truthiness (index 0 is a frame)", floor=5)
-    ctx.rule("R-16.6", "positional role agreement in velocity regeneration: (dek, kin_new), (vel, sigma_v), (xyz, vel, box, names) and writer arguments sit where the callee returns / expects them", floor=15)
+    ctx.rule("R-16.6", "positional role agreement in velocity regeneration: (dek, kin_new), (vel, sigma_v), (xyz, vel, box, names) and writer arguments sit where the callee returns / expects them", floor=8)
     impls = implementations(ctx.tree)
     armed = 0
     for m, cname, f in impls:
